@@ -830,5 +830,131 @@ package dsl
 //@   property C09
 //@   ensures non_enums_descend: typeof(node) != *EnumDefinition ==> called("dsl.(Visitor).VisitChildren")
 
+// ---- C06: the comparison core. docs/cpp/evolution.md lists what is compatible, what is compatible with a warning and
+// what is not; the functions below decide which class a pair of types or definitions falls into.
+// compareTypes: two missing types are equal and a missing type never equals a present one; a scalar never becomes a
+// collection or the other way round (also when the scalar is spelled as a reference); a collection whose elements are
+// incompatible is incompatible; otherwise the verdict is the one of the function that knows the new collection kind.
+//@ func compareTypes
+//@   property C06
+//@   ensures absent_equals_absent: newType == nil && oldType == nil ==> result == nil
+//@   ensures absent_never_equals_present: newType == nil && oldType != nil ==> typeof(result) == *TypeChangeIncompatible
+//@   ensures scalar_and_collection_are_incompatible: typeof(newType) == *GeneralizedType && typeof(oldType) == *GeneralizedType && newType.(*GeneralizedType) != nil && oldType.(*GeneralizedType) != nil && (old(newType.(*GeneralizedType).Dimensionality) == nil) != (old(oldType.(*GeneralizedType).Dimensionality) == nil) ==> typeof(result) == *TypeChangeIncompatible
+//@   ensures reference_to_collection_is_incompatible: typeof(newType) == *SimpleType && newType.(*SimpleType) != nil && typeof(old(newType.(*SimpleType).ResolvedDefinition)) != *NamedType && typeof(oldType) == *GeneralizedType && oldType.(*GeneralizedType) != nil && old(oldType.(*GeneralizedType).Dimensionality) != nil ==> typeof(result) == *TypeChangeIncompatible
+//@   ensures collection_to_reference_is_incompatible: typeof(oldType) == *SimpleType && oldType.(*SimpleType) != nil && typeof(old(oldType.(*SimpleType).ResolvedDefinition)) != *NamedType && typeof(newType) == *GeneralizedType && newType.(*GeneralizedType) != nil && old(newType.(*GeneralizedType).Dimensionality) != nil ==> typeof(result) == *TypeChangeIncompatible
+//@   ensures vectors_are_judged_as_vectors: typeof(newType) == *GeneralizedType && typeof(oldType) == *GeneralizedType && newType.(*GeneralizedType) != nil && oldType.(*GeneralizedType) != nil && typeof(old(newType.(*GeneralizedType).Dimensionality)) == *Vector && old(oldType.(*GeneralizedType).Dimensionality) != nil && typeof(result) != *TypeChangeIncompatible ==> called(detectVectorChanges) && result == lastResult(detectVectorChanges)
+//@   ensures arrays_are_judged_as_arrays: typeof(newType) == *GeneralizedType && typeof(oldType) == *GeneralizedType && newType.(*GeneralizedType) != nil && oldType.(*GeneralizedType) != nil && typeof(old(newType.(*GeneralizedType).Dimensionality)) == *Array && old(oldType.(*GeneralizedType).Dimensionality) != nil && typeof(result) != *TypeChangeIncompatible ==> called(detectArrayChanges) && result == lastResult(detectArrayChanges)
+//@   ensures maps_are_judged_as_maps: typeof(newType) == *GeneralizedType && typeof(oldType) == *GeneralizedType && newType.(*GeneralizedType) != nil && oldType.(*GeneralizedType) != nil && typeof(old(newType.(*GeneralizedType).Dimensionality)) == *Map && old(oldType.(*GeneralizedType).Dimensionality) != nil && typeof(result) != *TypeChangeIncompatible ==> called(detectMapChanges) && result == lastResult(detectMapChanges)
+//@   ensures streams_are_judged_as_streams: typeof(newType) == *GeneralizedType && typeof(oldType) == *GeneralizedType && newType.(*GeneralizedType) != nil && oldType.(*GeneralizedType) != nil && typeof(old(newType.(*GeneralizedType).Dimensionality)) == *Stream && old(oldType.(*GeneralizedType).Dimensionality) != nil && typeof(result) != *TypeChangeIncompatible ==> called(detectStreamChanges) && result == lastResult(detectStreamChanges)
+//@   ensures two_scalars_are_judged_by_their_cases: typeof(newType) == *GeneralizedType && typeof(oldType) == *GeneralizedType && newType.(*GeneralizedType) != nil && oldType.(*GeneralizedType) != nil && old(newType.(*GeneralizedType).Dimensionality) == nil && old(oldType.(*GeneralizedType).Dimensionality) == nil ==> called(compareGeneralizedTypes) && result == lastResult(compareGeneralizedTypes)
+//@   ensures two_references_are_judged_as_references: typeof(newType) == *SimpleType && typeof(oldType) == *SimpleType ==> called(compareSimpleTypes) && result == lastResult(compareSimpleTypes)
+
+// Two references: a pair of definitions that the version pairing matched is judged through the recorded definition
+// change, any other pair structurally.
+//@ func compareSimpleTypes
+//@   property C06
+//@   ensures exactly_one_judgement: (called(compareSemanticallyEquivalentTypes) && result == lastResult(compareSemanticallyEquivalentTypes) && !called(compareOtherSimpleTypes)) || (called(compareOtherSimpleTypes) && result == lastResult(compareOtherSimpleTypes) && !called(compareSemanticallyEquivalentTypes))
+
+// Unpaired references: aliases are looked through; two primitives are judged by the primitive table; a primitive never
+// equals a record or enum; a type parameter only equals the type parameter of the same name.
+//@ func compareOtherSimpleTypes
+//@   property C06
+//@   requires newType != nil && oldType != nil
+//@   ensures old_alias_is_looked_through: typeof(old(oldType.ResolvedDefinition)) == *NamedType ==> called(compareTypes) && result == lastResult(compareTypes)
+//@   ensures new_alias_is_looked_through: typeof(old(oldType.ResolvedDefinition)) != *NamedType && typeof(old(newType.ResolvedDefinition)) == *NamedType ==> called(compareTypes) && result == lastResult(compareTypes)
+//@   ensures primitives_go_by_the_table: typeof(old(oldType.ResolvedDefinition)) == PrimitiveDefinition && typeof(old(newType.ResolvedDefinition)) == PrimitiveDefinition ==> called(detectPrimitiveTypeChange) && result == lastResult(detectPrimitiveTypeChange)
+//@   ensures primitive_and_definition_are_incompatible: typeof(old(oldType.ResolvedDefinition)) != *NamedType && typeof(old(newType.ResolvedDefinition)) != *NamedType && (typeof(old(oldType.ResolvedDefinition)) == PrimitiveDefinition) != (typeof(old(newType.ResolvedDefinition)) == PrimitiveDefinition) ==> typeof(result) == *TypeChangeIncompatible
+//@   ensures same_type_parameter_is_no_change: typeof(old(oldType.ResolvedDefinition)) == *GenericTypeParameter && typeof(old(newType.ResolvedDefinition)) == *GenericTypeParameter && old(oldType.ResolvedDefinition.(*GenericTypeParameter).Name == newType.ResolvedDefinition.(*GenericTypeParameter).Name) ==> result == nil
+//@   ensures other_type_parameter_is_incompatible: typeof(old(oldType.ResolvedDefinition)) == *GenericTypeParameter && typeof(old(newType.ResolvedDefinition)) == *GenericTypeParameter && old(oldType.ResolvedDefinition.(*GenericTypeParameter).Name != newType.ResolvedDefinition.(*GenericTypeParameter).Name) ==> typeof(result) == *TypeChangeIncompatible
+//@   ensures unpaired_definitions_are_incompatible: (typeof(old(oldType.ResolvedDefinition)) == *RecordDefinition || typeof(old(oldType.ResolvedDefinition)) == *EnumDefinition) && typeof(old(newType.ResolvedDefinition)) != *NamedType ==> typeof(result) == *TypeChangeIncompatible
+
+// T? -> T and (T | U) -> T (and the opposite direction below) are the documented "compatible with a warning" changes
+// between a reference and an optional/union. The change names its direction: here the old side is the wider one.
+//@ func compareGeneralizedToSimpleTypes
+//@   property C06,C05
+//@   requires newType != nil && oldType != nil
+//@   ensures only_narrowing_verdicts: typeof(result) == *TypeChangeOptionalToScalar || typeof(result) == *TypeChangeUnionToScalar || typeof(result) == *TypeChangeIncompatible
+//@   ensures a_plain_scalar_is_incompatible: !lastResult("dsl.(*TypeCases).IsUnion") && !called(compareTypes) ==> typeof(result) == *TypeChangeIncompatible
+//@   ensures the_pair_is_old_then_new: (typeof(result) == *TypeChangeOptionalToScalar && result.(*TypeChangeOptionalToScalar) != nil ==> result.(*TypeChangeOptionalToScalar).TypePair.Old == oldType && result.(*TypeChangeOptionalToScalar).TypePair.New == newType) && (typeof(result) == *TypeChangeUnionToScalar && result.(*TypeChangeUnionToScalar) != nil ==> result.(*TypeChangeUnionToScalar).TypePair.Old == oldType && result.(*TypeChangeUnionToScalar).TypePair.New == newType)
+//@   ensures the_matching_case_is_recorded: typeof(result) == *TypeChangeUnionToScalar && result.(*TypeChangeUnionToScalar) != nil ==> 0 <= result.(*TypeChangeUnionToScalar).TypeIndex && result.(*TypeChangeUnionToScalar).TypeIndex < len(oldType.Cases) && (typeof(lastResult(compareTypes)) == nil || typeof(lastResult(compareTypes)) == *TypeChangeDefinitionChanged)
+//@ func compareSimpleToGeneralizedTypes
+//@   property C06,C05
+//@   requires newType != nil && oldType != nil
+//@   ensures only_widening_verdicts: typeof(result) == *TypeChangeScalarToOptional || typeof(result) == *TypeChangeScalarToUnion || typeof(result) == *TypeChangeIncompatible
+//@   ensures a_plain_scalar_is_incompatible: !lastResult("dsl.(*TypeCases).IsUnion") && !called(compareTypes) ==> typeof(result) == *TypeChangeIncompatible
+//@   ensures the_pair_is_old_then_new: (typeof(result) == *TypeChangeScalarToOptional && result.(*TypeChangeScalarToOptional) != nil ==> result.(*TypeChangeScalarToOptional).TypePair.Old == oldType && result.(*TypeChangeScalarToOptional).TypePair.New == newType) && (typeof(result) == *TypeChangeScalarToUnion && result.(*TypeChangeScalarToUnion) != nil ==> result.(*TypeChangeScalarToUnion).TypePair.Old == oldType && result.(*TypeChangeScalarToUnion).TypePair.New == newType)
+//@   ensures the_matching_case_is_recorded: typeof(result) == *TypeChangeScalarToUnion && result.(*TypeChangeScalarToUnion) != nil ==> 0 <= result.(*TypeChangeScalarToUnion).TypeIndex && result.(*TypeChangeScalarToUnion).TypeIndex < len(newType.Cases) && (typeof(lastResult(compareTypes)) == nil || typeof(lastResult(compareTypes)) == *TypeChangeDefinitionChanged)
+
+// Two scalar generalized types: a single type only matches a single type; optionals and unions have their own rules.
+//@ func compareGeneralizedTypes
+//@   property C06
+//@   requires newType != nil && oldType != nil
+//@   ensures single_versus_several_is_incompatible: len(newType.Cases) == 1 && len(oldType.Cases) != 1 ==> typeof(result) == *TypeChangeIncompatible
+//@   ensures single_types_are_compared: len(newType.Cases) == 1 && len(oldType.Cases) == 1 ==> called(compareTypes) && result == lastResult(compareTypes)
+//@   ensures optionals_have_their_rule: len(newType.Cases) != 1 && lastResult("dsl.(*TypeCases).IsOptional") ==> called(detectOptionalChanges) && result == lastResult(detectOptionalChanges)
+//@   ensures unions_have_their_rule: len(newType.Cases) != 1 && !lastResult("dsl.(*TypeCases).IsOptional") ==> called(detectUnionChanges) && result == lastResult(detectUnionChanges)
+
+// Enums (docs: adding, removing or changing values and changing the base type are reported; enum <-> flags is
+// incompatible). A missing base type is int32.
+//@ func compareEnumDefinitions
+//@   property C06
+//@   requires newEnum != nil && oldEnum != nil
+//@   ensures enum_versus_flags_is_incompatible: newEnum.IsFlags != oldEnum.IsFlags ==> typeof(result) == *DefinitionChangeIncompatible
+//@   ensures base_type_change_is_recorded: newEnum.IsFlags == oldEnum.IsFlags && lastResult(compareTypes) != nil ==> typeof(result) == *EnumChange && result.(*EnumChange) != nil && result.(*EnumChange).BaseTypeChange == lastResult(compareTypes)
+//@   ensures missing_base_type_is_int32: newEnum.IsFlags == oldEnum.IsFlags ==> (oldEnum.BaseType == nil ==> typeof(lastArg(compareTypes, 1)) == *SimpleType && lastArg(compareTypes, 1).(*SimpleType).ResolvedDefinition == PrimitiveInt32) && (newEnum.BaseType == nil ==> typeof(lastArg(compareTypes, 0)) == *SimpleType && lastArg(compareTypes, 0).(*SimpleType).ResolvedDefinition == PrimitiveInt32) && (oldEnum.BaseType != nil ==> lastArg(compareTypes, 1) == oldEnum.BaseType) && (newEnum.BaseType != nil ==> lastArg(compareTypes, 0) == newEnum.BaseType)
+//@   invariant 0: forall k in 0..rangeindex+1 :: (oldEnum.Values[k].Symbol in oldValues)
+//@   invariant 1: forall k in 0..len(oldEnum.Values) :: (oldEnum.Values[k].Symbol in oldValues)
+//@   invariant 1: forall k in 0..rangeindex+1 :: (newEnum.Values[k].Symbol in newValues)
+//@   invariant 1: len(valuesAdded) == 0 ==> (forall k in 0..rangeindex+1 :: (newEnum.Values[k].Symbol in oldValues))
+//@   invariant 2: forall k in 0..len(oldEnum.Values) :: (oldEnum.Values[k].Symbol in oldValues)
+//@   invariant 2: forall k in 0..len(newEnum.Values) :: (newEnum.Values[k].Symbol in newValues)
+//@   invariant 2: len(valuesAdded) == 0 ==> (forall k in 0..len(newEnum.Values) :: (newEnum.Values[k].Symbol in oldValues))
+//@   invariant 2: len(valuesRemoved) == 0 ==> (forall k in 0..rangeindex+1 :: (oldEnum.Values[k].Symbol in newValues))
+// (stated over the two lookup tables, whose key sets are the symbols of the two enums by the invariants above)
+//@   ensures no_change_means_no_symbol_added_or_removed: result == nil ==> (forall k in 0..len(newEnum.Values) :: (newEnum.Values[k].Symbol in oldValues) && (newEnum.Values[k].Symbol in newValues)) && (forall k in 0..len(oldEnum.Values) :: (oldEnum.Values[k].Symbol in newValues) && (oldEnum.Values[k].Symbol in oldValues))
+//@ observe-args dsl.compareTypes
+
+// Protocols: the generated reader of an old version reads the old steps in the old order; "no change" may only be
+// reported when every step of the new protocol sits at the same position in the old one (docs: adding, removing and
+// reordering steps are changes).
+//@ func compareProtocolDefinitions
+//@   property C06,C05
+//@   requires newProtocol != nil && oldProtocol != nil
+//@   ensures one_slot_per_new_step: result != nil ==> len(result.StepChanges) == len(newProtocol.Sequence)
+//@   invariant 0: forall k in 0..rangeindex+1 :: (newProtocol.Sequence[k].Name in newSteps)
+//@   invariant 1: forall k in 0..len(newProtocol.Sequence) :: (newProtocol.Sequence[k].Name in newSteps)
+//@   invariant 1: forall n string :: (n in oldSteps) <==> (n in oldStepIndices)
+//@   invariant 1: forall n string :: (n in oldStepIndices) ==> 0 <= oldStepIndices[n] && oldStepIndices[n] < len(oldProtocol.Sequence) && oldProtocol.Sequence[oldStepIndices[n]].Name == n
+//@   invariant 2: forall n string :: (n in oldSteps) <==> (n in oldStepIndices)
+//@   invariant 2: forall n string :: (n in oldStepIndices) ==> 0 <= oldStepIndices[n] && oldStepIndices[n] < len(oldProtocol.Sequence) && oldProtocol.Sequence[oldStepIndices[n]].Name == n
+//@   invariant 2: len(change.StepChanges) == len(newProtocol.Sequence)
+//@   invariant 2: 0 <= expectedIndex && expectedIndex <= rangeindex+1
+//@   invariant 2: (forall k in 0..rangeindex+1 :: change.StepChanges[k] == nil) ==> expectedIndex == rangeindex+1
+//@   invariant 2: len(change.StepsReordered) == 0 && (forall k in 0..rangeindex+1 :: change.StepChanges[k] == nil) ==> (forall k in 0..rangeindex+1 :: k < len(oldProtocol.Sequence) && oldProtocol.Sequence[k].Name == newProtocol.Sequence[k].Name)
+//@   invariant 3: len(change.StepChanges) == len(newProtocol.Sequence)
+//@   invariant 3: len(change.StepsReordered) == 0 && (forall k in 0..len(newProtocol.Sequence) :: change.StepChanges[k] == nil) ==> (forall k in 0..len(newProtocol.Sequence) :: k < len(oldProtocol.Sequence) && oldProtocol.Sequence[k].Name == newProtocol.Sequence[k].Name)
+//@   invariant 3: forall k in 0..rangeindex+1 :: change.StepChanges[k] == nil
+//@   ensures no_change_means_same_positions: result == nil ==> (forall k in 0..len(newProtocol.Sequence) :: k < len(oldProtocol.Sequence) && oldProtocol.Sequence[k].Name == newProtocol.Sequence[k].Name)
+
+// Definitions: a pair that the version pairing did not match, a different number of type parameters and a record next
+// to an enum are incompatible; two records, two enums and two aliases are judged by their own rules.
+//@ spec func defName(d TypeDefinition) string = d.GetDefinitionMeta().GetQualifiedName()
+//@ spec func pairedByVersions(n TypeDefinition, o TypeDefinition, c *EvolutionContext) bool = (defName(o) in c.SemanticPairs[defName(n)])
+//@ spec func comparedBefore(n TypeDefinition, o TypeDefinition, c *EvolutionContext) bool = (defName(o) in c.Changes[defName(n)])
+//@ func compareTypeDefinitions
+//@   property C06
+//@   requires context != nil
+//@   ensures unpaired_definitions_are_incompatible: newTd != nil && oldTd != nil && !old(pairedByVersions(newTd, oldTd, context)) ==> typeof(result) == *DefinitionChangeIncompatible
+//@   ensures a_pair_is_compared_once: newTd != nil && oldTd != nil && old(pairedByVersions(newTd, oldTd, context)) && old(comparedBefore(newTd, oldTd, context)) ==> result == old(context.Changes[defName(newTd)][defName(oldTd)]) && !called(compareTypes) && !called(compareRecordDefinitions) && !called(compareEnumDefinitions)
+//@   ensures a_different_number_of_type_parameters_is_incompatible: newTd != nil && oldTd != nil && old(pairedByVersions(newTd, oldTd, context)) && !old(comparedBefore(newTd, oldTd, context)) && old(len(newTd.GetDefinitionMeta().TypeParameters) != len(oldTd.GetDefinitionMeta().TypeParameters)) ==> typeof(result) == *DefinitionChangeIncompatible
+//@   ensures records_go_by_the_record_rule: typeof(newTd) == *RecordDefinition && typeof(oldTd) == *RecordDefinition && called(compareRecordDefinitions) ==> result == lastResult(compareRecordDefinitions)
+//@   ensures enums_go_by_the_enum_rule: typeof(newTd) == *EnumDefinition && typeof(oldTd) == *EnumDefinition && called(compareEnumDefinitions) ==> result == lastResult(compareEnumDefinitions)
+//@   ensures two_records_are_always_compared: typeof(newTd) == *RecordDefinition && typeof(oldTd) == *RecordDefinition && newTd != nil && oldTd != nil && old(pairedByVersions(newTd, oldTd, context)) && !old(comparedBefore(newTd, oldTd, context)) && old(len(newTd.GetDefinitionMeta().TypeParameters) == len(oldTd.GetDefinitionMeta().TypeParameters)) ==> called(compareRecordDefinitions)
+//@   ensures two_enums_are_always_compared: typeof(newTd) == *EnumDefinition && typeof(oldTd) == *EnumDefinition && newTd != nil && oldTd != nil && old(pairedByVersions(newTd, oldTd, context)) && !old(comparedBefore(newTd, oldTd, context)) && old(len(newTd.GetDefinitionMeta().TypeParameters) == len(oldTd.GetDefinitionMeta().TypeParameters)) ==> called(compareEnumDefinitions)
+//@   ensures record_and_enum_are_incompatible: newTd != nil && oldTd != nil && !old(comparedBefore(newTd, oldTd, context)) && ((typeof(newTd) == *RecordDefinition && typeof(oldTd) == *EnumDefinition) || (typeof(newTd) == *EnumDefinition && typeof(oldTd) == *RecordDefinition)) ==> typeof(result) == *DefinitionChangeIncompatible
+//@   ensures incompatible_alias_targets_are_incompatible: typeof(newTd) == *NamedType && typeof(oldTd) == *NamedType && called(compareTypes) && typeof(lastResult(compareTypes)) == *TypeChangeIncompatible ==> typeof(result) == *DefinitionChangeIncompatible
+//@   ensures equal_alias_targets_are_no_change: typeof(newTd) == *NamedType && typeof(oldTd) == *NamedType && called(compareTypes) && lastResult(compareTypes) == nil ==> result == nil
+//@   ensures changed_alias_targets_carry_the_change: typeof(newTd) == *NamedType && typeof(oldTd) == *NamedType && called(compareTypes) && lastResult(compareTypes) != nil && typeof(lastResult(compareTypes)) != *TypeChangeIncompatible ==> typeof(result) == *NamedTypeChange && result.(*NamedTypeChange) != nil && result.(*NamedTypeChange).TypeChange == lastResult(compareTypes)
+
 // Output and diagnostics may not depend on the iteration order of a Go map (C12): decided per `range` over a map.
 //@ map-order C12 package
